@@ -18,8 +18,10 @@ theorem C12_constructors_from_source :
   ⟨Tie.Ctor.constructors_15, Tie.Ctor.fixed_eq, Tie.Ctor.others⟩
 
 /-- **`bits.Has` and `bits.toggle`**, which every flag accessor and setter of the library goes through, are the `has`
-and `toggle` the model's setters, accessors and decoders use -/
-theorem C12_bit_helpers_from_source : Gen.bits.has = has ∧ Gen.bits.toggle = toggle :=
-  ⟨Tie.Ctor.has_eq, Tie.Ctor.toggle_eq⟩
+and `toggle` the model's setters, accessors and decoders use; `Connect.willQoS` (mask and shift of the will QoS
+bits, as the type checker folds the constants) is the model's -/
+theorem C12_bit_helpers_from_source :
+    Gen.bits.has = has ∧ Gen.bits.toggle = toggle ∧ (∀ p : Connect, Gen.Connect.willQoS p.flags = p.willQoS) :=
+  ⟨Tie.Ctor.has_eq, Tie.Ctor.toggle_eq, Tie.Ctor.willQoS_eq⟩
 
 end Mq
